@@ -269,11 +269,17 @@ class ExprMixin:
                     # no fork: evaluate the rest under the guard, combine symbolically
                     g = Tr(v)
                     s2 = s1.clone()
-                    s2.assume(g if is_and else z3.Not(g))
+                    guard = g if is_and else z3.Not(g)
+                    n0 = len(s2.pc)
+                    s2.assume(guard)
+                    n1 = len(s2.pc)
                     restv = go(s2, idx + 1, None)
-                    if len(restv) == 1 and not isinstance(restv[0][1], Exc) and (is_bool(restv[0][1]) or isinstance(restv[0][1], bool)):
+                    if len(restv) == 1 and restv[0][0] is s2 and not isinstance(restv[0][1], Exc) and (is_bool(restv[0][1]) or isinstance(restv[0][1], bool)):
                         r = lift(restv[0][1])
-                        # safety VCs of the rest were emitted under the guard in s2; keep s1's path
+                        # safety VCs of the rest were emitted under the guard in s2; keep s1's path.  What was ASSUMED while evaluating the
+                        # rest (postconditions of pure callees) holds whenever the rest is evaluated at all: carry it over under the guard
+                        for fact in s2.pc[max(n1, n0):]:
+                            s1.assume(z3.Implies(guard, fact))
                         out.append((s1, z3.And(g, r) if is_and else z3.Or(g, r)))
                         continue
                 for s3, b in self.fork(s1, Tr(v)):
@@ -396,6 +402,12 @@ class ExprMixin:
         if v is NONE:
             self.vc(s, z3.BoolVal(False), "safety", f"attribute .{attr} of None", getattr(node, "lineno", 0))
             return Exc("AttributeError", getattr(node, "lineno", 0), f".{attr} of None")
+        if isinstance(v, PyObj) and v.cls == "EndProg" and attr in ("mode", "pattern"):
+            return self.endprog_attr(v, attr)
+        if isinstance(v, PyObj) and v.cls == "Match" and attr in ("span", "end", "start", "group"):
+            return PyCallable("method", attr, bound=v)
+        if isinstance(v, PyObj) and v.cls == "TokenizerState" and attr == "match":
+            return PyCallable("method", attr, bound=v)
         if isinstance(v, PyObj):
             if attr in v.fields:
                 return v.fields[attr]
@@ -528,6 +540,8 @@ class ExprMixin:
                 raise Unsupported("only the top frame of end_progs is modelled")
             self.safety(s, v.fields["n"] > 0, f"subscript `{ast.unparse(node)[:60]}` on a non-empty list (IndexError)", node)
             return v.fields["top"]
+        if isinstance(v, PyConst) and v.name in ("endpats", "startpats"):
+            return self.pattern_subscript(v, i)
         if isinstance(v, PyConst) and v.name == "Token":
             return token_named(i)
         if is_tok(v):
